@@ -400,7 +400,23 @@ fn run_inner(sc: &J) -> Result<Option<String>, String> {
                 None => apache_avro::writer::datum::GenericDatumWriter::builder(&schema).build(),
             }.map_err(|e| e.to_string())?;
             let mut out = Vec::new();
-            let n = w.write_ser(&mut out, &value).map_err(|e| e.to_string())?;
+            // JSON integers are handed to the serializer as i64 (serde_json would say u64 for non-negative ones, which the
+            // schema-aware serializer maps to a dedicated fixed type, not to `long`)
+            struct AsI64<'a>(&'a J);
+            impl<'a> serde::Serialize for AsI64<'a> {
+                fn serialize<S: serde::Serializer>(&self, s: S) -> Result<S::Ok, S::Error> {
+                    use serde::ser::{SerializeMap, SerializeSeq};
+                    match self.0 {
+                        J::Null => s.serialize_unit(),
+                        J::Bool(b) => s.serialize_bool(*b),
+                        J::Number(n) => match n.as_i64() { Some(i) => s.serialize_i64(i), None => s.serialize_f64(n.as_f64().unwrap_or(0.0)) },
+                        J::String(t) => s.serialize_str(t),
+                        J::Array(a) => { let mut q = s.serialize_seq(Some(a.len()))?; for x in a { q.serialize_element(&AsI64(x))?; } q.end() }
+                        J::Object(o) => { let mut q = s.serialize_map(Some(o.len()))?; for (k, x) in o { q.serialize_entry(k, &AsI64(x))?; } q.end() }
+                    }
+                }
+            }
+            let n = w.write_ser(&mut out, &AsI64(&value)).map_err(|e| e.to_string())?;
             if n != out.len() { return Ok(Some(format!("write_ser returned {n} but emitted {} bytes {:02x?}", out.len(), out))); }
             let mut rd = &out[..];
             match apache_avro::from_avro_datum(&schema, &mut rd, None) {
@@ -410,7 +426,10 @@ fn run_inner(sc: &J) -> Result<Option<String>, String> {
                         match (j, v) {
                             (J::Array(a), Value::Array(b)) => { if a.len() != b.len() { return Some(format!("array of {} items decodes to {} items", a.len(), b.len())); } a.iter().zip(b).find_map(|(x, y)| count(x, y)) }
                             (J::Object(a), Value::Record(b)) => a.values().zip(b.iter()).find_map(|(x, (_, y))| count(x, y)),
-                            (J::Object(a), Value::Map(b)) => if a.len() != b.len() { Some(format!("map of {} entries decodes to {}", a.len(), b.len())) } else { None },
+                            (J::Object(a), Value::Map(b)) => if a.len() != b.len() { Some(format!("map of {} entries decodes to {}", a.len(), b.len())) } else { a.iter().find_map(|(k, x)| match b.get(k) { Some(y) => count(x, y), None => Some(format!("map entry {k:?} is missing after decoding")) }) },
+                            (J::Number(n), Value::Long(l)) => if n.as_i64() != Some(*l) { Some(format!("long {n} decodes to {l}")) } else { None },
+                            (J::Number(n), Value::Int(l)) => if n.as_i64() != Some(*l as i64) { Some(format!("int {n} decodes to {l}")) } else { None },
+                            (J::String(t), Value::String(u)) => if t != u { Some(format!("string {t:?} decodes to {u:?}")) } else { None },
                             _ => None,
                         }
                     }
